@@ -104,12 +104,15 @@ def first_diff(a, b, path='root'):
 class Circuit:
     def __init__(self, plan):
         self.plan = plan
+        plan['_domains'] = dutgen.has_clock_domains(plan['scope'])
         self.live = dutgen.instantiate(plan)      # sees generators
         self.twin = dutgen.instantiate(plan)      # never sees a generator
         self.texts = {}                           # root key -> list of (how, normalised text, raw text)
         self.gen = None
         self.added = 0
         self.gens_since_change = 0
+        self.shared = None
+        self.shared_snapshot = None
 
     def subobjects(self):
         import py4hw
@@ -179,7 +182,7 @@ def run_history(run, seed, idx, n_ops, case_sink):
     circuits = []
     plans = []
     for c in range(ncirc):
-        g = dutgen.Gen(rng(seed, 'c19-plan', idx, c), max_width=rnd.choice([8, 16]), exclude=NONDET)
+        g = dutgen.Gen(rng(seed, 'c19-plan', idx, c), max_width=rnd.choice([8, 16]), exclude=NONDET, clock_domains=(idx % 4 == 3))
         plan = g.plan(n_nodes=rnd.randint(3, 10), depth=rnd.randint(0, 2))
         plans.append(plan)
         try:
@@ -195,7 +198,9 @@ def run_history(run, seed, idx, n_ops, case_sink):
         ci = rnd.randrange(ncirc)
         c = circuits[ci]
         op = rnd.choice(['hier_same', 'hier_fresh', 'hier_fresh', 'hier_sub', 'hier_created', 'module_self', 'module_ancestor', 'module_top', 'clk', 'clk', 'add',
-                         'customise', 'burst'])
+                         'customise', 'burst', 'hier_shared_list'])
+        if c.plan.get('_domains') and rnd.random() < 0.25:
+            op = 'module_domain'
         if last_touch.get(ci) == 'add' and rnd.random() < 0.6:
             op = rnd.choice(['hier_same', 'hier_fresh'])      # regenerate right after a structural change
         if op == 'add' and ops and ops[-1][1] not in ('module_top',) and rnd.random() < 0.5:
@@ -276,6 +281,41 @@ def run_history(run, seed, idx, n_ops, case_sink):
                 nontrivial = True
                 last_touch[ci] = 'gen'
                 continue
+            if op == 'module_domain':
+                # a block inside a secondary clock domain: its module text from a generator built on the top, on the owner of the
+                # domain and on the block itself
+                root_drv = py4hw.getObjectClockDriver(c.live.dut)
+                inside = [(pth, o) for pth, o in c.subobjects() if py4hw.getObjectClockDriver(o) is not root_drv]
+                if not inside:
+                    ops[-1][1] = 'clk_skip'
+                    continue
+                pth, obj = rnd.choice(inside)
+                owner = obj
+                while getattr(owner, 'clockDriver', None) is None and owner.parent is not None:
+                    owner = owner.parent
+                before = snapshot(c.live.dut, Wire)
+                texts = []
+                for label, root in (('top', c.live.dut), ('domain owner', owner), ('itself', obj)):
+                    try:
+                        with muted():
+                            texts.append((label, normalise(py4hw.VerilogGenerator(root).getVerilog(obj))))
+                    except Exception as e:
+                        texts.append((label, 'raised %s' % type(e).__name__))
+                run.ev()
+                run.count('generation_calls', 3)
+                run.count('domain_module_comparisons')
+                if len(set(t for _, t in texts)) > 1:
+                    run.violation('generation_not_repeatable', dict(clause='ancestor_independence', first='top', second='domain'),
+                                  dict(case, step=step, key='mod:' + pth, texts=[(l, t[:1500]) for l, t in texts]),
+                                  what='history %d step %d: module text of %s (inside a secondary clock domain) depends on where the request is made from' % (idx, step, pth))
+                    return
+                d = first_diff(before, snapshot(c.live.dut, Wire))
+                if d is not None:
+                    run.violation('generation_mutates_circuit', dict(clause='purity', op=op), dict(case, step=step, diff=d),
+                                  what='history %d step %d (%s): circuit snapshot changed: %s' % (idx, step, op, d[:160]))
+                    return
+                nontrivial = True
+                continue
             if op == 'customise':
                 # another user's generator object, customised through its own emitter tables (and used): private to that object,
                 # so every other generator -- existing or created later -- still describes the design the same way
@@ -292,6 +332,7 @@ def run_history(run, seed, idx, n_ops, case_sink):
                     add_block(c.twin, c.added)
                 c.added += 1
                 c.texts.clear()          # the circuit changed: earlier texts describe the old design
+                c.shared = None
                 last_touch[ci] = 'add'
                 continue
             # ---- generation operations
@@ -306,6 +347,14 @@ def run_history(run, seed, idx, n_ops, case_sink):
                     key = 'top'
                 elif op == 'hier_fresh':
                     text = py4hw.VerilogGenerator(c.live.dut).getVerilogForHierarchy()
+                    key = 'top'
+                elif op == 'hier_shared_list':
+                    # the caller keeps one createdStructures list (as for a multi-file project) and hands it to a long-lived generator
+                    if c.gen is None:
+                        c.gen = py4hw.VerilogGenerator(c.live.dut)
+                    c.shared = []
+                    text = c.gen.getVerilogForHierarchy(createdStructures=c.shared)
+                    c.shared_snapshot = list(c.shared)
                     key = 'top'
                 elif op == 'hier_created':
                     text = py4hw.VerilogGenerator(c.live.dut).getVerilogForHierarchy(createdStructures=[])
@@ -346,6 +395,13 @@ def run_history(run, seed, idx, n_ops, case_sink):
             after = snapshot(c.live.dut, Wire)
             run.ev()
             run.count('generation_calls')
+            if op != 'hier_shared_list' and getattr(c, 'shared', None) is not None:
+                run.count('caller_list_checks')
+                if c.shared != c.shared_snapshot:
+                    run.violation('caller_list_modified_by_later_request', dict(clause='purity', op=op),
+                                  dict(case, step=step, before=c.shared_snapshot[:20], after=c.shared[:20]),
+                                  what='history %d step %d (%s): the createdStructures list of an earlier request was modified by a request that did not get it' % (idx, step, op))
+                    return
             d = first_diff(before, after)
             if d is not None:
                 run.violation('generation_mutates_circuit', dict(clause='purity', op=op), dict(case, step=step, diff=d),
